@@ -404,6 +404,12 @@ class InProtocolBase(ProtocolMixin):
                                          "Integer %%r longer than %d characters"
                                                         % cls_attrs.max_str_len)
 
+        if isinstance(string, (six.text_type, six.binary_type)) and \
+                      (b'_' if isinstance(string, six.binary_type) else u'_') \
+                                                                      in string:
+            # int() takes python literals like 1_000
+            raise ValidationError(string, "Could not cast %r to integer")
+
         try:
             return int(string)
         except ValueError:
@@ -633,7 +639,24 @@ class InProtocolBase(ProtocolMixin):
         return self.duration_from_unicode(cls, string)
 
     def boolean_from_bytes(self, cls, string):
-        return string.lower() in ('true', '1')
+        if isinstance(string, bool):
+            return string
+
+        if isinstance(string, six.binary_type):
+            string = string.decode('ascii', 'replace')
+
+        try:
+            value = string.strip().lower()
+        except AttributeError:
+            raise ValidationError(string)
+
+        if value in ('true', '1'):
+            return True
+
+        if value in ('false', '0'):
+            return False
+
+        raise ValidationError(string, "%r is not a boolean")
 
     def byte_array_from_bytes(self, cls, value, suggested_encoding=None):
         encoding = self.get_cls_attrs(cls).encoding
